@@ -695,6 +695,11 @@ NAME_VOCAB = ["x.tar.gz", "report.final.PDF", "noext", "archive.tar.bz2", "mail.
               "Sheet.XLSX", ".docx", "page.mhtml", "b.gz"]
 
 
+# extractor behaviours: 0 one result, 1 two results, 2 none, 3 encrypted error, 4 other ExtractionError after
+# the first result, 5 foreign exception at once; a part with b behaviours uses the first b of BEH_ORDER
+BEH_ORDER = [0, 3, 4, 5, 1, 2]
+
+
 class _Stream:
     """stand-in for the attachment's BytesIO: position is whatever seek() was given"""
 
@@ -732,7 +737,9 @@ def _fake_registry(ctx, r, log):
         def extractor(stream, path=None):
             rec = {"fn": fn_name, "stream": stream, "path": path, "pos_at_call": stream.pos, "yielded": 0}
             log.append(rec)
-            beh = ctx.choice(f"behaviour{getattr(stream, 'idx', 0)}", n_beh) if n_beh > 1 else 0
+            idx = getattr(stream, "idx", 0)
+            nb = n_beh[min(idx, len(n_beh) - 1)] if isinstance(n_beh, list) else n_beh
+            beh = BEH_ORDER[ctx.choice(f"behaviour{idx}", nb)] if nb > 1 else 0
             rec["behaviour"] = beh
             # the extractor reads: the stream is left somewhere else
             stream.pos = ctx.fresh_int(f"extractor_leaves_stream_at{getattr(stream, 'idx', 0)}", 0, 2 ** 31)
@@ -892,15 +899,15 @@ def _k2_parts(tier):
             parts += sym(n, [0, 15, 24], 4)
         parts += sym(5, [15], 4)
         parts += [{"name_len": None, "mime_lens": [9, 24], "n_att": 1, "behaviours": 6},
-                  {"name_len": None, "mime_lens": [15], "n_att": 2, "behaviours": 4, "vocab": 3}]
+                  {"name_len": None, "mime_lens": [15], "n_att": 2, "behaviours": [4, 2], "vocab": 3}]
     else:
         parts = []
         for n in range(0, 8):
             parts += sym(n, [0, 10, 15, 16, 24] if n < 6 else [15], 4)
         parts += [{"name_len": None, "mime_lens": [ml], "n_att": 1, "behaviours": 6} for ml in key_lens + [1, 30]]
-        parts += [{"name_len": None, "mime_lens": [15, 24], "n_att": 2, "behaviours": 6, "vocab": 3, "first_vocab": v}
+        parts += [{"name_len": None, "mime_lens": [15, 24], "n_att": 2, "behaviours": [6, 4], "vocab": 3, "first_vocab": v}
                   for v in range(3)]
-        parts += [{"name_len": 4, "mime_lens": [15], "n_att": 2, "behaviours": 4, "vocab": 3, "last_dot": d}
+        parts += [{"name_len": 4, "mime_lens": [15], "n_att": 2, "behaviours": [4, 2], "vocab": 3, "last_dot": d}
                   for d in range(-1, 4)]
     return parts
 
